@@ -168,7 +168,7 @@ Theorem open_gives_a_new_handle n ip h w sp p m s :
   Files.fopen m (disk_get (w_disk w) p) = Some s ->
   exec (S (S n)) ip h w (VIO (IOOpen sp p m)) =
   Done h {| w_in := w_in w; w_out := w_out w; w_disk := disk_set (w_disk w) p (content s);
-            w_handles := (w_nexth w, {| h_path := p; h_pos := pos s; h_mode := m; h_closed := false |}) :: w_handles w; w_nexth := Pos.succ (w_nexth w) |}
+            w_handles := (w_nexth w, {| h_path := p; h_pos := pos s; h_mode := m; h_closed := false |}) :: w_handles w; w_nexth := Pos.succ (w_nexth w); w_mods := w_mods w |}
          (inl (VFun (FFile (w_nexth w)))) 0.
 Proof. exact (FileIO.open_gives_a_new_handle n ip h w sp p m s). Qed.
 Print Assumptions open_gives_a_new_handle.
